@@ -224,6 +224,20 @@ class G:
         self.maps[X].clear()
         self.ghosts[X] = []
 
+    def op_fromlist(self, X):
+        """FromIterator from a list that repeats keys (same key with other values and other host bits)"""
+        n = self.r.randint(0, 8)
+        ks = [self.pick(X, 0.5, 0.2) for _ in range(n)]
+        if ks and self.r.random() < 0.8:
+            for _ in range(self.r.randint(1, 3)):      # forced duplicates
+                ks.insert(self.r.randint(0, len(ks)), self.r.choice(ks))
+        items, m = [], {}
+        for k in ks:
+            items.append('%s=%d' % (self.p(k), self.val()))
+            m[k] = 1
+        self.emit('fromlist %s %s' % (X, ','.join(items) or '-'))
+        self.maps[X] = m
+
     def op_collect(self, X):
         n = len(self.maps[X]) + 2
         rs = ','.join(str(self.r.randint(0, 50)) for _ in range(self.r.randint(0, n)))
@@ -345,8 +359,10 @@ class G:
                 self.op_remove(X)
             elif r < 0.92:
                 self.op_retain(X)
-            elif r < 0.97:
+            elif r < 0.96:
                 self.op_collect(X)
+            elif r < 0.98:
+                self.op_fromlist(X)
             else:
                 self.op_clear(X)
             return
@@ -370,6 +386,8 @@ class G:
             self.op_valwrite(X)
         elif r < 0.93:
             self.emit('clone %s' % X)
+        elif r < 0.945:
+            self.op_fromlist(X)
         else:
             self.op_viewmut(X, counter_ops=(alphabet == 'full'))
 
@@ -453,6 +471,12 @@ def set_step(g):
         for q in list(m):
             if f(q, 0) is False:
                 del m[q]
+    elif r < 0.8125:
+        ks = [g.pick('T', 0.5, 0.2) for _ in range(g.r.randint(0, 6))]
+        if ks:
+            ks.insert(g.r.randint(0, len(ks)), g.r.choice(ks))
+        g.emit('sfromlist %s' % (','.join(g.p(k) for k in ks) or '-'))
+        g.maps['T'] = {k: 0 for k in ks}
     elif r < 0.82:
         g.emit('sclear')
         g.maps['T'].clear()
